@@ -49,7 +49,9 @@ def tree_hash(paths, exts=('.rs', '.toml', '.lock', '.py', '.json')):
                     if f.endswith(exts):
                         files.append(os.path.join(root, f))
         for f in files:
-            h.update(f.encode())
+            # a scratch copy of the repository (VERIF_REPO) hashes like /repo itself when its contents are equal
+            name = '/repo' + f[len(REPO):] if REPO != '/repo' and f.startswith(REPO + '/') else f
+            h.update(name.encode())
             with open(f, 'rb') as fh:
                 h.update(fh.read())
     return h.hexdigest()[:24]
